@@ -1621,6 +1621,11 @@ class SymX:
             if fv[0] == "v" and fv[1] != c.func.id and fv[1] in ("max", "min", "sum", "len", "sorted", "abs", "round", "any", "all", "list", "tuple", "set", "frozenset") \
                     and fv[1] not in f.mod.funcs and fv[1] not in f.mod.consts:
                 return simp(("call", fv[1], args, kws))           # a builtin handed over as a value (`pick=max`) and called
+            if fv[0] == "v" and isinstance(fv[1], str) and "." in fv[1] and fv[1].split(".")[0] in ("math", "random", "logging", "copy", "os", "time", "operator", "itertools", "functools"):
+                return simp(("call", fv[1], args, kws))           # a local name for a library function: `log = math.log`
+            if fv[0] == "attr" and fv[1][0] == "v" and fv[1][1] in ("math", "random", "copy", "os", "time", "operator", "itertools", "functools") and fv[1][1] not in st.env \
+                    and fv[1][1] not in f.mod.funcs and fv[1][1] not in f.mod.consts:
+                return simp(("call", "%s.%s" % (fv[1][1], fv[2]), args, kws))
             if fv[0] != "v" or fv[1] != c.func.id:
                 return ("apply", fv, args, kws)
         if isinstance(c.func, ast.Attribute) and isinstance(c.func.value, ast.Call) and isinstance(c.func.value.func, ast.Name) \
